@@ -9,7 +9,10 @@ RULE = ("ent: coefficient images from a formula (sparse, flat, extreme amplitude
         "progressive / scripted, restart intervals in MCUs (0..65535) and in rows, optionally re-encoded by the transcoder path "
         "(jpeg_read_coefficients -> jpeg_copy_critical_parameters -> jpeg_write_coefficients) into another mode; oracle on the real code: "
         "the stream carries exactly the source coefficients and decodes without warnings.  Stage 2 (t81): every Huffman-coded stream is "
-        "decoded by the Lean T.81 decoder and by jpeg_read_coefficients; tables, geometry, scan count and coefficient digests must agree")
+        "decoded by the Lean T.81 decoder and by jpeg_read_coefficients; tables, geometry, scan count and coefficient digests must agree.  "
+        "seqbytes: the entropy-coded data of baseline scans (Annex K tables, all sampling factors, partial MCUs, restart intervals) written by "
+        "the real encoder (C and SIMD Huffman encoders) must equal, byte for byte, what the Lean encoder - the function the theorems are "
+        "about - produces for the same coefficients")
 TRUSTED = ["Model.T81 is a decoder written from ITU-T T.81 (marker syntax, Annex C table construction, Annex F/G decoding procedures); "
            "Model.SeqHuff is the block coder of jchuff.c; arithmetic-coded streams are checked on the real code only (QM coder not modelled)"]
 ASSUMPTIONS = ["identical pixels follow from identical coefficients because decompression is a function of the coefficient arrays and settings"]
@@ -19,6 +22,8 @@ SS = [0, 1, 2, 3, 4, 5, 6, 3, 0, 2, 21, 12, 22, 41, 14, 100, 101, 102]
 
 def classify(op, R):
     p = op.split(" ")
+    if p[0] == "seqbytes":
+        return "seqbytes:nc%s:%sx%s:ri%s" % (p[7], p[5], p[6], "0" if p[4] == "0" else "1")
     if p[0] == "ent":
         return "ent:ss%s:p%s:k%s:m%s:ri%s:t%s" % (p[1], p[4], p[6], p[7], "0" if p[8] == "0" and p[9] == "0" else "1", p[11])
     return "t81:" + ("err" if R.startswith("err") else "arith" if "arith" in R else "ok")
@@ -54,6 +59,12 @@ def gen_ops(rng, tier):
     for i in range(40 if big else 12):
         ops.append("ent %d %d %d 8 %d %d %d 0 0 %d -1" % (rng.choice([0, 2, 1]), rng.randint(9, 40), rng.randint(9, 40), rng.randrange(1 << 20),
                                                         rng.choice([0, 3]), rng.choice([7, 8]), rng.randrange(1 << 20)))
+    # the block coder itself, byte for byte: baseline scans written by the real encoder for formula coefficients vs the Lean
+    # encoder (SeqHuff.encodeBlock + interval framing + libjpeg's dummy-block rule + restart markers)
+    for i in range(1200 if big else 220):
+        nc = rng.choice([1, 3, 3, 3])
+        hs, vs = rng.choice([(1, 1), (2, 1), (2, 2), (1, 2), (4, 1), (1, 4), (2, 1), (2, 2)]) if nc == 3 else (1, 1)
+        ops.append("seqbytes %d %d %d %d %d %d %d" % (rng.randrange(1 << 30), rng.randint(1, 70), rng.randint(1, 50), rng.choice([0, 0, 1, 2, 3, 7, 8, 9, 50]), hs, vs, nc))
     return ops
 
 
